@@ -66,7 +66,14 @@ pub fn rle_encode<T: Eq + Clone>(data: &[T]) -> RleEncoded<T> {
 /// Decode RLE back to original data.
 #[must_use]
 pub fn rle_decode<T: Clone + Eq>(encoded: &RleEncoded<T>) -> Vec<T> {
-    let total_len = encoded.len();
+    // Only runs that have a value produce output; a stored image may list more run lengths
+    // than values, and those must not be reserved for.
+    let total_len: usize = encoded
+        .run_lengths
+        .iter()
+        .take(encoded.values.len())
+        .map(|&r| r as usize)
+        .sum();
     let mut result = Vec::with_capacity(total_len);
 
     for (value, &count) in encoded.values.iter().zip(&encoded.run_lengths) {
